@@ -76,7 +76,7 @@ func c16Needles(mech int, secret string) map[string]string {
 	return n
 }
 
-var c16AltNames = []string{"conforming", "535", "non-base64 challenge", "extra challenge", "drop"}
+var c16AltNames = []string{"conforming", "535", "non-base64 challenge", "extra challenge", "drop", "conforming reply, then the client's next write fails"}
 
 func c16Exec(r *vf.Run, cfg c16Cfg, c *vf.Chooser) (keys, whats []string, controlHit bool) {
 	add := func(k, w string) { keys = append(keys, k); whats = append(whats, w) }
@@ -112,13 +112,22 @@ func c16Exec(r *vf.Run, cfg c16Cfg, c *vf.Chooser) (keys, whats []string, contro
 		return nil
 	}
 	sess.Script = func(s *refsmtp.Session, ev *refsmtp.Event, def refsmtp.Action) refsmtp.Action {
+		if ev.Verb == "EHLO" && !useTLS || ev.Verb == "EHLO" && s.InTLS {
+			if c.Choose(ev.Pos(), 2) == 1 {
+				conn.BreakWrites = true
+			}
+			return def
+		}
 		if ev.Verb != "AUTH" && ev.Verb != "AUTHRESP" {
 			return def
 		}
 		if ev.Line == "*" {
 			return def
 		}
-		switch c.Choose(ev.Pos(), 5) {
+		switch c.Choose(ev.Pos(), 6) {
+		case 5:
+			conn.BreakWrites = true
+			return def
 		case 1:
 			return refsmtp.Action{Kind: refsmtp.ActReply, Code: 535, Text: []string{"5.7.8 authentication failed"}}
 		case 2:
@@ -294,7 +303,7 @@ func init() {
 	vf.Register(&vf.Check{
 		ID: "C16", Title: "authentication secrets never reach the debug log",
 		Run: func(r *vf.Run) {
-			r.SetRule("mechanism {PLAIN, LOGIN, CRAM-MD5, XOAUTH2, SCRAM-SHA-1, SCRAM-SHA-256, SCRAM-SHA-256-PLUS over real TLS} × 4 marker credentials (base64 padding 0/1/2, '='/',', Unicode) × logger {custom capturing, log.New, log.NewJSON} × {debug only, debug+WithLogAuthData as scanner control} × entry {mail.Client dial+send, smtp.Client Auth then NOOP} × every server script over {conforming, 535, non-base64 challenge, extra challenge, drop} at every AUTH step up to the deviation bound; the log (format, arguments, formatted line, raw output, decoded JSON msg) is scanned for the secret, its base64/hex/url-base64 forms and the exact SASL response; distinct by (configuration, script)")
+			r.SetRule("mechanism {PLAIN, LOGIN, CRAM-MD5, XOAUTH2, SCRAM-SHA-1, SCRAM-SHA-256, SCRAM-SHA-256-PLUS over real TLS} × 4 marker credentials (base64 padding 0/1/2, '='/',', Unicode) × logger {custom capturing, log.New, log.NewJSON} × {debug only, debug+WithLogAuthData as scanner control} × entry {mail.Client dial+send, smtp.Client Auth then NOOP} × every server script over {conforming, 535, non-base64 challenge, extra challenge, drop, transport write failure on the next client line} at every AUTH step and at the EHLO that precedes AUTH up to the deviation bound; the log (format, arguments, formatted line, raw output, decoded JSON msg) is scanned for the secret, its base64/hex/url-base64 forms and the exact SASL response; distinct by (configuration, script)")
 			r.Assume("user names are not secrets", "a server that echoes credentials in its own reply text is outside the alphabet")
 			bound := 3
 			if r.Thorough {
